@@ -25,7 +25,11 @@ RULE = ("family optimum: SPDC::default() then seeded random configurations (11 c
         "(auto or explicit period, apodised or not) x collinear / non-collinear (internal or external angle, any azimuth) x waists "
         "20-1000 um x waist positions auto/explicit x idler auto / explicit conjugate / explicit non-conjugate x forward and "
         "(poling on) counter-propagating), built through SPDCConfig::try_as_spdc; per setup: wiring case, idempotence, centre = 1, "
-        "3 (quick) / 5 (thorough) frequency pairs x 7 normalised accessors, every third setup a 2-property sweep of <= 3x3 steps; "
+        "3 (quick) / 5 (thorough) frequency pairs x 7 normalised accessors, every third setup a 2-property sweep of <= 3x3 steps; every second setup (and its optimum) a SEQUENCE on one thread: "
+        "2-4 spectra of the same setup built back to back with integrators drawn (random order) from Simpson-6/50/200, GL-4/40, "
+        "adaptive Simpson, optionally interleaved with optimum_range, built first and checked afterwards against references "
+        "evaluated with the same integrator, centre = 1 for each; 40 (setup, integrator) samples re-built at the end of the run "
+        "(bit-identical where all sums are sequential); "
         "integrator drawn from Simpson-10/20/50, Gauss-Legendre-8/20")
 RESIDUAL = ("existence of an optimised version (the unwrap() in JointSpectrum::new / jsi_values_normalized panics when there is none: "
             "C17) and convergence of the two simplex searches (C04); setups whose optimum has a zero or non-finite reference are "
